@@ -11,7 +11,7 @@ tv == << served, lastValid, buffer, disk, bcast, net, miner, tid, l, done, follo
 Tr == Traces[tid]
 Emit(c) == PrintT(ToJson(<< "FINDING", Tr.id, l, c >>))
 O == Tr.out
-ModelOut == [x_on_disk |-> X \in disk, b_on_disk |-> B \in disk, x_served |-> X \in served, b_served |-> B \in served, b_bcast |-> B \in bcast, x_bcast |-> X \in bcast]
+ModelOut == [x_on_disk |-> X \in disk, b_on_disk |-> B \in disk, x_served |-> X \in served, b_served |-> B \in served, b_bcast |-> B \in bcast]
 Agrees == follows /\ \A k \in DOMAIN ModelOut : ModelOut[k] = O[k]
 Clauses ==
   (IF Rejected /\ O.x_on_disk THEN {IF follows /\ ModelOut.x_on_disk THEN "C09:rejected_block_written_to_the_store_by_a_concurrent_flush_of_the_miner_thread"
@@ -24,7 +24,7 @@ Clauses ==
   \cup (IF Tr.errors # << >> THEN {"C12:handling_a_found_block_or_a_delivery_raised_under_a_two_thread_schedule"} ELSE {})
 TInit == /\ tid \in 1..Len(Traces) /\ l = 1 /\ done = FALSE /\ follows = TRUE
          /\ served = {G} /\ lastValid = {G} /\ buffer = << >> /\ disk = {G} /\ bcast = {}
-         /\ net = [pc |-> "N1", prior |-> {}, changed |-> {}] /\ miner = [pc |-> IF MinerOn THEN "M1" ELSE "done", snap |-> {}]
+         /\ net = [pc |-> "N1", prior |-> {}, changed |-> {}, tmp |-> {}] /\ miner = [pc |-> IF MinerOn THEN "M1" ELSE "done", snap |-> {}]
 TNext ==
   /\ ~done /\ UNCHANGED tid
   /\ IF l > Len(Tr.hist) \/ ~follows
@@ -36,6 +36,7 @@ TNext ==
      ELSE LET e == Tr.hist[l] IN
           IF Tr.feasible /\ ((e.t = "net" /\ net.pc = e.a /\ ENABLED NetStep) \/ (e.t = "miner" /\ miner.pc = e.a /\ ENABLED MinerStep))
           THEN /\ (IF e.t = "net" THEN NetStep ELSE MinerStep) /\ l' = l + 1 /\ UNCHANGED << done, follows >>
+               /\ (e.a = "N8" => ((X \in bcast') = O.x_bcast))
           ELSE /\ follows' = FALSE /\ UNCHANGED << served, lastValid, buffer, disk, bcast, net, miner, l, done >>
                /\ (Tr.feasible => PrintT(ToJson(<< "DRIFT", Tr.id, l, "the schedule the code followed is not a behaviour of Handover at " \o e.t \o " " \o e.a >>)))
 TSpec == TInit /\ [][TNext]_tv
